@@ -686,6 +686,64 @@ mod xen_part {
                 }
             }
         }
+        // the environment refuses: the device ioctl or the mmap of an advance-mapped region
+        // fails - construction fails and leaves neither a mapping nor a live grant behind;
+        // hugetlbfs hint of the request is reported by the region
+        for (w, tname) in [(0x1u32, "foreign"), (0x2, "grant"), (0x0, "unix")] {
+            for inject in ["device-ioctl-fails", "mmap-fails", "none"] {
+                if w == 0 && inject == "device-ioctl-fails" {
+                    continue;
+                }
+                emu.clear();
+                let mut range = MmapRange::new(8192, Some(emu.file_offset(0)), GuestAddress(0x20000), w, 3);
+                range.set_hugetlbfs(true);
+                match inject {
+                    "device-ioctl-fails" => {
+                        emu.fail_next_map(1);
+                        emu.fail_next_foreign(1);
+                    }
+                    "mmap-fails" => {}
+                    _ => {}
+                }
+                interpose::arm();
+                if inject == "mmap-fails" {
+                    interpose::fail_next_mmaps(1);
+                }
+                let res = guarded(|| MmapRegion::<()>::from_range(range));
+                interpose::fail_next_mmaps(0);
+                let log = interpose::disarm();
+                emu.fail_next_map(0);
+                emu.fail_next_foreign(0);
+                let mut net = interpose::Pieces::default();
+                net.apply(&log);
+                match res {
+                    Err(p) => v(&format!("xen/panic/from_range-with-{}/{}", inject, panic_sig(&p)), jobj! {"type" => tname}),
+                    Ok(Ok(mut reg)) => {
+                        if inject != "none" {
+                            v(&format!("xen/construction-succeeded-although-{}", inject), jobj! {"type" => tname});
+                        }
+                        if reg.is_hugetlbfs() != Some(true) {
+                            v("xen/hugetlbfs-hint-differs-from-request", jobj! {"type" => tname, "got" => J::dbg(&reg.is_hugetlbfs())});
+                        }
+                        reg.set_hugetlbfs(false);
+                        if reg.is_hugetlbfs() != Some(false) {
+                            v("xen/set_hugetlbfs-not-reported", jobj! {"type" => tname});
+                        }
+                        drop(reg);
+                    }
+                    Ok(Err(_)) => {
+                        if inject == "none" {
+                            v("xen/safe-request-refused/with-hugetlbfs-hint", jobj! {"type" => tname});
+                        }
+                        if net.total() != 0 || !emu.live().is_empty() {
+                            v("xen/failed-construction-left-a-mapping", jobj! {"type" => tname, "injected" => inject, "left" => J::dbg(&net.v), "grants" => J::dbg(&emu.live())});
+                        }
+                    }
+                }
+                out::key(&format!("xen|environment|{}|{}", tname, inject), true);
+                out::eval(1);
+            }
+        }
         // MAP_FIXED and explicit mmap flags
         for flags in [libc::MAP_SHARED | libc::MAP_FIXED, libc::MAP_PRIVATE | libc::MAP_ANONYMOUS | libc::MAP_FIXED] {
             let mut range = MmapRange::new_unix(4096, None, GuestAddress(0));
